@@ -122,8 +122,11 @@ func runQuote(c QuoteCase, o *vk.Obs) string {
 		}
 	}
 	ss := c.strings()
+	o.Step()
 	j := shell.Join(ss)
+	o.Step()
 	fs, ok := shell.Split(j)
+	o.Step()
 	if !ok || !sameFields(fs, ss) {
 		return fmt.Sprintf("Split(Join(%q)) = %q, %v; want the same list and true (Join gives %q)", ss, fs, ok, j)
 	}
@@ -424,14 +427,55 @@ func (c SplitCase) input() string {
 	return sb.String()
 }
 
+func tailOf(fs []string) []string {
+	if len(fs) > 2 {
+		fs = fs[len(fs)-2:]
+	}
+	out := make([]string, len(fs))
+	for i, f := range fs {
+		if len(f) > 40 {
+			f = f[:16] + "…" + f[len(f)-16:]
+		}
+		out[i] = f
+	}
+	return out
+}
+
 // otherInput is split between a call and the re-inspection of its result.
 const otherInput = "A B C D E F G H I J K L M N O P Q R S T U V W X Y Z 'q r' \"s t\""
 
 func runSplit(c SplitCase, o *vk.Obs) string {
 	in := c.input()
+	if c.Pad >= 1<<19 {
+		// inputs of a megabyte and more: the reference tokenizer, package Split
+		// and a Scanner over the whole string (the per-fragment scanner checks
+		// below read byte by byte and are kept for inputs of ordinary size)
+		ref := refSplit(in)
+		o.Step()
+		fs, ok := shell.Split(in)
+		if ok != ref.Complete || !sameFields(fs, ref.Fields) {
+			return fmt.Sprintf("Split(%d bytes: %d bytes of padding of kind %d, then %q) = %d fields, %v; the reference tokenizer gives %d fields, %v (last fields %q vs %q)",
+				len(in), c.Pad, c.PadKind%4, fromInts(c.In), len(fs), ok, len(ref.Fields), ref.Complete, tailOf(fs), tailOf(ref.Fields))
+		}
+		o.Step()
+		sc := shell.NewScanner(strings.NewReader(in))
+		if got := sc.Split(); !sameFields(got, ref.Fields) || sc.Complete() != ref.Complete {
+			return fmt.Sprintf("Scanner.Split over %d bytes (%d bytes of padding of kind %d, then %q) gives %d fields, Complete = %v; reference %d fields, %v",
+				len(in), c.Pad, c.PadKind%4, fromInts(c.In), len(got), sc.Complete(), len(ref.Fields), ref.Complete)
+		}
+		if !ref.Complete {
+			o.NonTrivial()
+		}
+		o.Class("input>=512KiB")
+		o.ClassIf(len(in) >= 1<<20, "input>=1MiB")
+		o.ClassIf(!ref.Complete, "incomplete")
+		return ""
+	}
 	// results must stay what they were after later calls (pooled scanners)
+	o.Step()
 	first, firstOK := shell.Split(in)
 	keep := append([]string(nil), first...)
+	o.Step()
 	shell.Split(otherInput)
 	sc2 := shell.NewScanner(strings.NewReader(in))
 	viaScanner := sc2.Split()
@@ -457,6 +501,7 @@ func runSplit(c SplitCase, o *vk.Obs) string {
 		if pi == 0 {
 			src = c.Src // the case's own plan (or the first standard plan) runs on the case's source kind
 		}
+		o.Step()
 		if m := checkScanner(in, ref, fr, pi%2 == 1, reuse, src); m != "" {
 			return m
 		}
